@@ -80,3 +80,17 @@ reg("C18", "DESIGN.md#19", "abstract interpretation of the handler wrapper over 
     "each handler, well-formedness of every returned dictionary per status, retriable<->raise, stop-before-join on every exit, stop-flag observation by the "
     "consumer loops, and ExecutionError for malformed payloads.",
     "Concrete botocore classification is value-level; thread liveness at run time is not decided.")
+reg("C15", "DESIGN.md#16", "abstract interpretation of the codec dispatcher on one typed representative per supported type (tag/type table agreement)",
+    "Decides the structural part only: the tag emitted for each supported type is decoded back into the same type (incl. bool/int and datetime/date ordering), "
+    "tag coverage and rejection of unknown tags, per-element wrapping, the envelope-free fast path's domain on both sides, rejection of non-string dict keys, "
+    "and conversion of serdes failures to ExecutionError.",
+    "Round-trip equality of values is NOT decided (runtime quantity); stdlib inverses (json, base64, uuid, Decimal, isoformat) are trusted.")
+reg("C19", "DESIGN.md#20", "abstract interpretation of OrderedLock/OrderedCounter methods with keyed external queue/lock/event objects",
+    "Decides the monitor-discipline necessary conditions: lock discipline of shared fields, enqueue-before-wait on the same event, self-wake iff the queue was "
+    "empty, append/popleft/index-0 FIFO discipline, wake-head on release, break-and-wake-all on exceptional exit, re-test of the broken flag, and the counter's "
+    "read-modify-return inside one lock hold.",
+    "FIFO/exclusion/gap-freedom under all interleavings are not decided.")
+reg("C20", "DESIGN.md#21", "writer/reader table extraction from the AST of every to_dict/from_dict pair and set comparison",
+    "Decides at the level of fields and keys that every field is written, written and read under the same key, enum and nested-model conversions are paired, "
+    "an empty-dict wire value is not treated as absence, no walrus re-binding leaks raw values, and the JSON variants convert exactly the datetime paths.",
+    "Value conversions inside a field are trusted; omission of empty optional strings is allowed by the statement.")
